@@ -31,6 +31,7 @@ pub fn generate(seed: u64, run: u64, _tier: Tier, st: &mut Stats) -> (StreamCase
             storage: None,
             stats_swarm: false,
             soup_pct: 6,
+            wide_records: 0,
         },
         st,
     );
